@@ -244,7 +244,7 @@ void verif_case(Ctx &c) {
 
 // small-scope exhaustive: 2 threads x 2 operations on one class, all interleavings at lock granularity
 void verif_enum(Enum &e) {
-	uint64_t cap = e.tier == "thorough" ? 200000 : 4000;
+	uint64_t cap = e.tier == "thorough" ? 60000 : 4000;
 	struct Shape { std::vector<uint32_t> prefix; const char *name; };
 	// prefix: cfg, nthreads-2, reentrant (1 = no), fault plan (1 = none), template, then per thread: n-1, (kind, sizepick, [size arg], arg)...
 	std::vector<Shape> shapes = {
